@@ -38,3 +38,7 @@ Theorem C08_builder_applies_rule : forall t p t' p', build cfg P t p = Ok (t', p
   t' = t /\ p_name p' = rule cfg t (p_name p) /\ p_ns p' = p_ns p /\ p_ver p' = p_ver p /\ p_sub p' = p_sub p.
 Proof. apply C08_build_rule. Qed.
 Print Assumptions C08_builder_applies_rule.
+(* the model's table look-up (which stops at the first larger key) finds every entry of the dumped std table: the tables strictly ascend *)
+Theorem C08_table_lookup_is_complete : forall c l, In (c, l) (lower_tbl cfg) -> lower_c cfg c = l.
+Proof. intros c l H. unfold lower_c. rewrite (tbl_find_complete cfg (lower_tbl cfg) c l); [reflexivity|vm_compute; reflexivity|exact H]. Qed.
+Print Assumptions C08_table_lookup_is_complete.
